@@ -140,6 +140,7 @@ let h_pcase args : fail list =
       if !inputs_ok then q_redactable kind o else [] in
     (match r, obs with
      | RMiss w, _ -> incr unmodelled; bump miss_reasons (string_of_int (int_of_nat w));
+       if int_of_nat w = 0 && Sys.getenv_opt "VERIF_DEBUG_MISS" <> None then prerr_endline ("MISS0 " ^ Sexp.to_string entry);
        (* the model does not cover the case: only the black-box predicates apply; a panic is
           accepted only where the harness found a panic raised while printing a panic payload
           (or by the Sprintfn callback itself), which propagates as in fmt *)
